@@ -511,10 +511,36 @@ def insertBytes (b : Bytes) : List Bytes → List Bytes
   | [] => [b]
   | x :: xs => if blt b x then b :: x :: xs else x :: insertBytes b xs
 
+/-- the directory of a prefix: `[p/, prefixEnd p/)` -/
+def dirOf (p : Bytes) : Bytes × Bytes := (withSlash p, prefixEnd (withSlash p))
+
+/-- a skipped directory clipped to `[lo, hi)`; `none` when nothing of it lies inside -/
+def clipSpan (lo hi : Bytes) (p : Bytes) : Option (Bytes × Bytes) :=
+  let (s, e) := dirOf p
+  let s := if blt s lo then lo else s
+  let e := if blt hi e then hi else e
+  if blt s e then some (s, e) else none
+
+def insertSpan (x : Bytes × Bytes) : List (Bytes × Bytes) → List (Bytes × Bytes)
+  | [] => [x]
+  | y :: ys => if blt x.1 y.1 then x :: y :: ys else y :: insertSpan x ys
+
+/-- `[cur, hi)` minus the union of the spans (sorted by start) -/
+def subtractSpans (cur hi : Bytes) : List (Bytes × Bytes) → List (Bytes × Bytes)
+  | [] => if blt cur hi then [(cur, hi)] else []
+  | (s, e) :: rest =>
+    (if blt cur s then [(cur, s)] else []) ++ subtractSpans (if blt cur e then e else cur) hi rest
+
+/-- the raw-key ranges a compaction visits: the directory of the prefix minus the union of the skipped
+directories (nested, duplicate and foreign skipped prefixes included) -/
+def compactRanges (c : Cfg) : List (Bytes × Bytes) :=
+  let (lo, hi) := dirOf c.pfx
+  let spans := (c.skipped.filterMap (clipSpan lo hi)).foldr insertSpan []
+  subtractSpans lo hi spans
+
+/-- `getCompactBorders`: the internal-key borders, `[start₀, end₀, start₁, end₁, …]`. -/
 def compactBorders (c : Cfg) : List Bytes :=
-  let ps := (c.pfx :: c.skipped).map withSlash
-  let bs := ps.flatMap (fun p => [encode p 0, encode (prefixEnd p) 0])
-  bs.foldr insertBytes []
+  (compactRanges c).flatMap (fun r => [encode r.1 0, encode r.2 0])
 
 def pairs : List α → List (α × α)
   | a :: b :: rest => (a, b) :: pairs rest
